@@ -272,10 +272,8 @@ impl MqttShared {
         self.flags.set(flags);
 
         // streaming waiter
-        if let Some(tx) = self.streaming_waiter.take()
-            && tx.send(()).is_ok()
-        {
-            return;
+        if let Some(tx) = self.streaming_waiter.take() {
+            let _ = tx.send(());
         }
 
         // check if there are waiters
